@@ -219,6 +219,8 @@ pub struct Obs {
     pub budget_exhausted: bool,
     /// per-call bound violations noticed by the driver (consumed > window, produced > space, ...)
     pub bound_violation: Option<String>,
+    /// the flow as it was left when the exchange ended in Stuck / Error
+    pub leftover: Option<FlowSt>,
 }
 
 impl Obs {
@@ -862,6 +864,7 @@ impl<'a> Exchange<'a> {
             end_ns: 0,
             budget_exhausted: false,
             bound_violation: None,
+            leftover: None,
         };
         let mut r = Run {
             now: 0,
@@ -987,6 +990,9 @@ impl<'a> Exchange<'a> {
             // nothing can happen any more: the flow is stuck where it is
             let name = r.st.name();
             r.obs.terminal = Terminal::Stuck(name);
+        }
+        if matches!(r.obs.terminal, Terminal::Stuck(_) | Terminal::Error(..)) {
+            r.obs.leftover = Some(std::mem::replace(&mut r.st, FlowSt::Gone));
         }
         r.obs.consumed = r.consumed - r.base;
         r.obs.end_ns = r.now;
